@@ -53,6 +53,42 @@ fn ask(x: &Value, y: &Value, op: &str, st: &mut Stats) -> Result<Value, Violatio
     let o1 = impl_search(&e1, &doc);
     let o2 = impl_search(&e2, &Value::Null);
     let case = json!({"kind": "compare", "l": x, "r": y, "op": op});
+    // when both operands are the same value, also present them as the very same node
+    let o3 = if x == y && serde_json::to_string(x).unwrap() == serde_json::to_string(y).unwrap() {
+        st.evaluations += 2;
+        st.validated += 2;
+        let a = impl_search(&format!("@ {} @", op), x);
+        let b = impl_search(&format!("l {} l", op), &doc);
+        let c = impl_search(&format!("[l, l][?@ {} @]", op), &doc);
+        // the filter form yields both elements when the comparison is truthy
+        let truthy = matches!(&a, Out::Value(Value::Bool(true), false));
+        let c_ok = matches!(&c, Out::Value(Value::Array(v), false) if (v.len() == 2) == truthy || x.is_null());
+        match (&a, &b) {
+            (Out::Value(p, false), Out::Value(q, false)) if p == q && c_ok => Some(p.clone()),
+            _ => {
+                return Err(Violation {
+                    key: "C10/same-node-operands".into(),
+                    check: "operators".into(),
+                    case: json!({"kind": "compare", "l": x, "r": y, "op": op}),
+                    expected: "'@ OP @', 'l OP l' and the filter form agree".into(),
+                    actual: format!("{} vs {} vs {}", a.brief(), b.brief(), c.brief()),
+                })
+            }
+        }
+    } else {
+        None
+    };
+    if let (Some(s), Out::Value(a, false)) = (&o3, &o1) {
+        if s != a {
+            return Err(Violation {
+                key: "C10/same-node-operands".into(),
+                check: "operators".into(),
+                case: json!({"kind": "compare", "l": x, "r": y, "op": op}),
+                expected: format!("{} (as for two separate equal operands)", a),
+                actual: format!("{} from '@ {} @'", s, op),
+            });
+        }
+    }
     match (&o1, &o2) {
         (Out::Value(a, false), Out::Value(b, false)) if a == b => Ok(a.clone()),
         _ => Err(Violation {
